@@ -23,7 +23,7 @@ ASSUMPTIONS = ["cases in which either run reports a bus voltage below 0.5 or abo
                "flow equations) are counted and not compared; init='flat' with angles and phase shifts > 30 degrees is replaced by 'dc'",
                "LoadflowNotConverged / NotImplementedError / UserWarning of an alternative are legal outcomes",
                "voltage-dependent loads are switched off when a pypower algorithm (gs, fdbx, fdxb) takes part",
-               "per-generator q is compared as sum per node; tolerance_mva 1e-8 scaled with sn_mva, gs max_iteration 20000"]
+               "per-generator q is compared as sum per node; solver accuracy 1e-8 MVA (tolerance_mva = 1e-8/sn_mva), comparison 1e-4 MVA, currents and loadings with the power tolerance expressed at the lowest voltage level / smallest rating; gs max_iteration 20000"]
 
 PROFILE = netgen.profile(oos=0.04, open_prob=0.2, dcline=False, second_slack=False, nb_max=9, max_per_bus=2,
                          extra_branches=(0, 2), trafo_parallel_pair=True,
@@ -126,7 +126,7 @@ def run(net, opts, sn, angles, vdl):
     o = dict(opts)
     alg = o.get("algorithm", "nr")
     init = o.pop("init", "auto")
-    tol = 1e-8 / max(1.0, sn / 100.0)
+    tol = 1e-8 / sn       # absolute accuracy 1e-8 MVA (the criterion is applied to the p.u. mismatch)
     mi = {"nr": 40, "iwamoto_nr": 40, "bfsw": 300, "gs": 20000, "fdbx": 300, "fdxb": 300}[alg]
     if init == "results":
         # previous results of a nearby state: all loads scaled by 0.9
@@ -140,9 +140,38 @@ def run(net, opts, sn, angles, vdl):
 
 
 def compare(ref, alt, sn):
-    diffs = oracles.compare_results(ref, alt, atol=1e-4 * max(1.0, sn / 100.0), rtol=1e-6, angle_tol=1e-4,
+    atol_s = 1e-4     # MVA
+    cur_cols = tuple(c for t in oracles.res_tables(ref) for c in ref[t].columns if c.startswith("i_") or c == "loading_percent")
+    diffs = oracles.compare_results(ref, alt, atol=atol_s, rtol=1e-6, angle_tol=1e-4,
                                     tables=[t for t in oracles.res_tables(ref) if t not in ("res_gen", "res_ext_grid")],
-                                    skip_cols=())
+                                    skip_cols=cur_cols)
+    # currents / loadings: the power tolerance expressed as a current at the lowest voltage level (and as a loading of the
+    # smallest rating); relative 1e-5
+    vmin = float(ref.bus.vn_kv.min())
+    atol_i = atol_s / (math.sqrt(3) * vmin)
+    for t in oracles.res_tables(ref):
+        for c in ref[t].columns:
+            if not (c.startswith("i_") or c == "loading_percent") or c not in alt[t].columns:
+                continue
+            if c == "loading_percent":
+                el = t[4:]
+                if el == "line":
+                    a = 100 * atol_i / float((ref.line.max_i_ka * ref.line.df * ref.line.parallel).min())
+                elif el == "trafo":
+                    a = 100 * atol_s / float(ref.trafo.sn_mva.min())
+                elif el == "trafo3w":
+                    a = 100 * atol_s / float(ref.trafo3w[["sn_hv_mva", "sn_mv_mva", "sn_lv_mva"]].min().min())
+                else:
+                    a = 1e-3
+            else:
+                a = atol_i
+            x, y = ref[t][c].values.astype(float), alt[t][c].values.astype(float)
+            for i in range(len(x)):
+                if math.isnan(x[i]) and math.isnan(y[i]):
+                    continue
+                if math.isnan(x[i]) != math.isnan(y[i]) or abs(x[i] - y[i]) > a + 1e-5 * max(abs(x[i]), abs(y[i])):
+                    diffs.append("%s.%s[%s]: %r vs %r (tol %.3g)" % (t, c, ref[t].index[i], x[i], y[i], a))
+                    break
     # voltages tighter
     for b in ref.res_bus.index:
         a, c = ref.res_bus.at[b, "vm_pu"], alt.res_bus.at[b, "vm_pu"]
